@@ -147,6 +147,16 @@ theorem session_cancel_safe {σ : Type} (fr : Framing) (cfg : ServerCfg σ) (l :
     = handleEvents fr cfg (cutScript script).2 hs (readerRun fr (cutScript script).1)
   rw [readerRunC_eq, h.1, h.2]
 
+/-- **session_cancel_safe_with_write_fault**: the two fault models compose — cancelled reads change
+    nothing about a session with a failing transport write either, for every fault position -/
+theorem session_cancel_safe_with_write_fault {σ : Type} (fr : Framing) (cfg : ServerCfg σ)
+    (l : DecodeLevel) (n : Nat) (hs : List (Nat × σ)) (script : List SessStep) :
+    runSessionWC fr cfg l n hs script = runSessionW fr cfg l n hs script := by
+  have h := deliveriesC_cut script
+  show handleEventsW fr cfg (deliveriesC script).2 n hs (readerRunC fr (deliveriesC script).1)
+    = handleEventsW fr cfg (cutScript script).2 n hs (readerRun fr (cutScript script).1)
+  rw [readerRunC_eq, h.1, h.2]
+
 /-! ## Non-vacuity: a cancellation that hits a compaction -/
 
 /-- 22 pipelined 12-byte requests = 264 bytes; the first delivery fills the buffer to its end (260)
